@@ -111,8 +111,65 @@ class _Canon(ast.NodeTransformer):
         return node
 
 
+class _Alpha(ast.NodeTransformer):
+    """Bound variables (comprehension targets, lambda parameters) renamed to their binding DEPTH: `[d.shape for d in D]`
+    and `[dim.shape for dim in D]` are the same expression.  Free names are left alone."""
+
+    def __init__(self):
+        self.env: Dict[str, str] = {}
+        self.depth = 0
+
+    def visit_Name(self, node: ast.Name):
+        if node.id in self.env:
+            return ast.copy_location(ast.Name(id=self.env[node.id], ctx=node.ctx), node)
+        return node
+
+    def _bind(self, target: ast.AST):
+        for n in ast.walk(target):
+            if isinstance(n, ast.Name):
+                self.env[n.id] = f"_b{self.depth}"
+                self.depth += 1
+
+    def _comp(self, node, fields):
+        saved_env, saved_depth = dict(self.env), self.depth
+        gens = []
+        for g in node.generators:
+            it = self.visit(g.iter)  # evaluated before its own target is bound
+            self._bind(g.target)
+            gens.append(ast.comprehension(target=self.visit(g.target), iter=it, ifs=[self.visit(c) for c in g.ifs], is_async=g.is_async))
+        node.generators = gens
+        for f in fields:
+            setattr(node, f, self.visit(getattr(node, f)))
+        self.env, self.depth = saved_env, saved_depth
+        return node
+
+    def visit_ListComp(self, node):
+        return self._comp(node, ("elt",))
+
+    visit_SetComp = visit_GeneratorExp = visit_ListComp
+
+    def visit_DictComp(self, node):
+        return self._comp(node, ("key", "value"))
+
+    def visit_Lambda(self, node: ast.Lambda):
+        saved_env, saved_depth = dict(self.env), self.depth
+        a = node.args
+        for d in a.defaults + [k for k in a.kw_defaults if k is not None]:
+            self.visit(d)
+        for x in a.posonlyargs + a.args + a.kwonlyargs + [v for v in (a.vararg, a.kwarg) if v]:
+            self.env[x.arg] = x.arg = f"_b{self.depth}"
+            self.depth += 1
+        node.body = self.visit(node.body)
+        self.env, self.depth = saved_env, saved_depth
+        return node
+
+
+def alpha(e: ast.expr) -> ast.expr:
+    return _Alpha().visit(copy.deepcopy(e))
+
+
 def canon(e: ast.expr) -> ast.expr:
-    return _Canon().visit(copy.deepcopy(e))
+    return _Canon().visit(alpha(e))
 
 
 def parse(text: str) -> ast.expr:
@@ -169,7 +226,7 @@ def shape_diff(a: ast.AST, b: ast.AST, path: str = "", _mirrored: bool = False) 
     out: List[Tuple[str, str, str]] = []
     ta, tb = _tok(a), _tok(b)
     if ta != tb:
-        out.append((path, str(ta), str(tb)))
+        out.append((path + ("#name" if isinstance(a, ast.Name) and isinstance(b, ast.Name) else ""), str(ta), str(tb)))
     fa = [(f, getattr(a, f, None)) for f in a._fields if f not in ("ctx", "id", "attr", "value") or f == "value" and not isinstance(a, ast.Constant)]
     for f, va in fa:
         vb = getattr(b, f, None)
@@ -198,6 +255,68 @@ def shape_diff(a: ast.AST, b: ast.AST, path: str = "", _mirrored: bool = False) 
     return out
 
 
+# names bound in the function(s) under analysis (set by the rule / by Ctx.check_expr): lets a LOCAL that was renamed
+# consistently be told from a local that was substituted by another one.  None: unknown (no renaming is assumed).
+SCOPE: Optional[set] = None
+
+
+class ScopeSet(set):
+    """All bare names of the function(s) under analysis; `.bound`: those BOUND there (parameters, assignment / loop /
+    comprehension targets) - only these can be "renamed locals" (a class, an exception, a module constant cannot)."""
+
+    bound: Optional[set] = None
+
+    @classmethod
+    def of(cls, fns) -> "ScopeSet":
+        out = cls()
+        out.bound = set()
+        for fn in fns:
+            for n in ast.walk(fn):
+                if isinstance(n, ast.Name):
+                    out.add(n.id)
+                    if isinstance(n.ctx, ast.Store):
+                        out.bound.add(n.id)
+                elif isinstance(n, ast.arg):
+                    out.add(n.arg)
+                    out.bound.add(n.arg)
+        return out
+
+
+class scope:
+    """with exprdiff.scope(names): ...  - the names of the function(s) the compared expressions come from."""
+
+    def __init__(self, names):
+        self.names = names if names is None or isinstance(names, ScopeSet) else ScopeSet(names)
+
+    def __enter__(self):
+        global SCOPE
+        self.saved, SCOPE = SCOPE, self.names
+        return self
+
+    def __exit__(self, *a):
+        global SCOPE
+        SCOPE = self.saved
+        return False
+
+
+def is_local_renaming(diffs) -> bool:
+    """Every difference is a bare name for a bare name, the mapping is one-to-one, the specified names no longer occur in
+    the function(s) under analysis and the derived ones do: the local was RENAMED (`idx` -> `cube_idx` everywhere),
+    which no behaviour depends on.  A substitution (`i` where `idx` is specified, `idx` still bound) is not."""
+    if SCOPE is None or not diffs:
+        return False
+    fwd: Dict[str, str] = {}
+    bwd: Dict[str, str] = {}
+    for p, got, spec in diffs:
+        if not p.endswith("#name"):
+            return False
+        if fwd.setdefault(spec, got) != got or bwd.setdefault(got, spec) != spec:
+            return False
+        if spec in SCOPE or got not in SCOPE or (SCOPE.bound is not None and got not in SCOPE.bound):
+            return False
+    return True
+
+
 def compare(derived: ast.expr, accepted: Sequence[str]) -> Tuple[Optional[bool], str]:
     """-> (True, '') held | (False, detail) token substitution | (None, why) undecided."""
     d = canon(derived)
@@ -210,6 +329,8 @@ def compare(derived: ast.expr, accepted: Sequence[str]) -> Tuple[Optional[bool],
         diff = shape_diff(d, a)
         if diff is not None and (best is None or len(diff) < len(best)):
             best = diff
+    if best is not None and best and is_local_renaming(best):
+        return True, ""
     if best is not None and best:
         toks = "; ".join(f"{x} where {y} is specified" for _p, x, y in best[:6])
         return False, "token(s) substituted: " + toks
